@@ -320,9 +320,7 @@ func hbSystem(t *testing.T, h *H) {
 			mu.Lock()
 			over = true
 			mu.Unlock()
-			m.Close()
-			r.close()
-			time.Sleep(10 * time.Minute)
+			r.shutdown(m)
 		})
 		desc := fmt.Sprintf("I=%v T=%v transports=%v blackhole=%s at t0=%v", I, T, trs, d.name, t0)
 		if live {
